@@ -254,8 +254,8 @@ func c19Churn(x *Ctx) {
 				p.Call(&Msg{Type: Tattach, Tag: 1, Fid: 0, Afid: NOFID, Uname: "u", Nuname: 1})
 				for i := 0; i < 4; i++ {
 					p.Call(&Msg{Type: Tattach, Tag: 2, Fid: 0, Afid: NOFID, Uname: "u", Nuname: 1}) // fid already in use
-					p.Call(&Msg{Type: Tauth, Tag: 3, Afid: 5, Uname: "u", Nuname: 1})                // no authentication required
-					p.Call(&Msg{Type: Topen, Tag: 4, Fid: 0, Mode: 1})                                 // a directory, for writing
+					p.Call(&Msg{Type: Tauth, Tag: 3, Afid: 5, Uname: "u", Nuname: 1})               // no authentication required
+					p.Call(&Msg{Type: Topen, Tag: 4, Fid: 0, Mode: 1})                              // a directory, for writing
 				}
 				sc.Clnt.Close()
 			})
